@@ -356,7 +356,7 @@ func (fr *Frame) loopModifies(li *loopInfo) *loopMods {
 					addPat(heapPatOfAddr(t.Addr))
 				}
 			case *ssa.MapUpdate:
-				addPat("M_" + typeKey(t.Map.Type()))
+				addPat(mapHeapKey(t.Map.Type()))
 			case *ssa.Next:
 				if c := fr.iters[t.Iter]; c != nil {
 					m.cells[c] = true
@@ -411,7 +411,7 @@ func (x *Exec) callEffects(fr *Frame, c *ssa.CallCommon, depth int) callEff {
 				e.heaps = append(e.heaps, "A_"+typeKey(sliceElem(c.Args[0].Type())))
 			}
 		case "delete":
-			e.heaps = append(e.heaps, "M_"+typeKey(c.Args[0].Type()))
+			e.heaps = append(e.heaps, mapHeapKey(c.Args[0].Type()))
 		case "clear":
 			e.all = true
 		}
@@ -540,7 +540,7 @@ func (x *Exec) callEffects(fr *Frame, c *ssa.CallCommon, depth int) callEff {
 					e.heaps = append(e.heaps, p)
 				}
 			case *ssa.MapUpdate:
-				e.heaps = append(e.heaps, "M_"+typeKey(t.Map.Type()))
+				e.heaps = append(e.heaps, mapHeapKey(t.Map.Type()))
 			case *ssa.Go, *ssa.Send, *ssa.Select:
 				e.all = true
 			case *ssa.Call:
